@@ -1550,3 +1550,28 @@ Proof.
   - vm_compute. reflexivity.
   - vm_compute. reflexivity.
 Qed.
+
+(* ------------------------------------------------------------------------------------------------ *)
+(** * reset() and the run-time setters never extend a lease (every socket value) *)
+
+Lemma c18_reset_and_setters : forall s,
+  (* reset: back to Discovering, and a lease that was held is reported lost by the next poll() *)
+  ds_state (dhcp_reset s) = Discovering 0 /\
+  (forall cfg ra rb rbg e, ds_state s = Renewing cfg ra rb rbg e ->
+     snd (dhcp_poll (dhcp_reset s)) = Some EvDeconfigured) /\
+  (* the setters leave phase, timers (hence expires_at) and the pending-event flag untouched *)
+  (forall sp cp, ds_state (dhcp_set_ports s sp cp) = ds_state s /\
+                 ds_config_changed (dhcp_set_ports s sp cp) = ds_config_changed s) /\
+  (forall m, ds_state (dhcp_set_max_lease_duration s m) = ds_state s /\
+             ds_config_changed (dhcp_set_max_lease_duration s m) = ds_config_changed s) /\
+  (forall c, ds_state (dhcp_set_retry_config s c) = ds_state s /\
+             ds_config_changed (dhcp_set_retry_config s c) = ds_config_changed s) /\
+  (forall b, ds_state (dhcp_set_ignore_naks s b) = ds_state s /\
+             ds_config_changed (dhcp_set_ignore_naks s b) = ds_config_changed s) /\
+  (ds_state (dhcp_set_receive_packet_buffer s) = ds_state s /\
+   ds_config_changed (dhcp_set_receive_packet_buffer s) = ds_config_changed s).
+Proof.
+  intros s. split; [apply dhcp_reset_state|]. split.
+  - intros cfg ra rb rbg e Hst. unfold dhcp_poll, dhcp_reset. rewrite Hst. reflexivity.
+  - splits; try reflexivity; intros; split; reflexivity.
+Qed.
